@@ -354,9 +354,9 @@ def run(ctx):
     for b0 in ([5] if ctx.quick else [0, 37, 74, 111, 148, 185, 222]):
       seeds.append((bits, bytes([b0, 3] + [0] * 30).hex(), False))
   mpctx = mp.get_context('fork')
-  with mpctx.Pool(processes=15) as pool:
-    res = list(pool.imap_unordered(rsa_worker, jobs, chunksize=1)) + list(pool.imap_unordered(keypair_worker, seeds, chunksize=1))
-    hres = list(pool.imap_unordered(keypair_history_worker, keypair_histories(ctx.quick, rng, 'C06'), chunksize=1))
+  from pv import proc
+  res = list(proc.imap_unordered(rsa_worker, jobs, procs=15, chunk=2)) + list(proc.imap_unordered(keypair_worker, seeds, procs=15))
+  hres = list(proc.imap_unordered(keypair_history_worker, keypair_histories(ctx.quick, rng, 'C06'), procs=15))
   recs = []
   for rec, err in res:
     if err:
